@@ -16,7 +16,10 @@ U32 wasmMemoryAtomicWait(wasmMemory* m, U32 a, U64 e, I64 t, bool w) { (void)m; 
 U32 wasmMemoryAtomicNotify(wasmMemory* m, U32 a, U32 c) { (void)m; (void)a; (void)c; return 0; }
 #define MAXT 16
 #define MAXOPS 4096
-typedef struct { unsigned long long c, r; int op; unsigned arg, res; } Op;   /* op: 0 grow 1 size 2 store 3 load */
+typedef struct { unsigned long long c, r; int op; unsigned arg, res; } Op;   /* op: 0 grow 1 size 2 store 3 load; 4 first load of a private cell
+   in a page the thread has observed but never written (arg = page, must read 0: new pages are zeroed), 5 store to / 6 load from the private
+   cell of an observed page (5: arg = value, res = page; 6: arg = expected value, res = loaded value) */
+#define MAXPG 256
 static Op ops[MAXT][MAXOPS]; static int nops[MAXT];
 static unsigned long long seqc; static gmInstance parent; static gmInstance* child[MAXT];
 static int delayMode; static __thread unsigned long long rng; static __thread int tid = -1;
@@ -31,11 +34,21 @@ int w2c2VerifSpuriousWakeup(void) { return 0; }
 static unsigned maxPages, initPages, nthreads, opsPer; static unsigned long long gseed;
 static void* run(void* p) {
   int t = (int)(long)p; unsigned i; unsigned mine = 64u + (unsigned)t * 256u, last = 0; int stored = 0;
+  unsigned observed = initPages; static __thread unsigned hval[MAXPG]; static __thread unsigned char hstate[MAXPG];  /* 0 untouched, 1 read as zero, 2 written */
   tid = t; rng = gseed * 0x9E3779B97F4A7C15ULL + ((unsigned long long)t + 1) * 0xD1B54A32D192ED03ULL; if (!rng) rng = 1;
-  for (i = 0; i < opsPer && nops[t] < MAXOPS; i++) { Op* o = &ops[t][nops[t]++]; unsigned k = rnd() % 10;
+  for (i = 0; i < opsPer && nops[t] < MAXOPS; i++) { Op* o = &ops[t][nops[t]++]; unsigned k = rnd() % 13;
+    if (k >= 10) { /* frontier accesses: only pages this thread itself has observed to exist (own grow result or memory.size) */
+      unsigned pg, addr;
+      if (observed <= initPages || observed > MAXPG) { k = rnd() % 10; }
+      else { pg = (rnd() % 3) ? observed - 1 : initPages + rnd() % (observed - initPages); addr = pg * 65536u + 64u + (unsigned)t * 256u + 128u;
+        if (hstate[pg] == 0) { o->op = 4; o->arg = pg; o->c = __atomic_add_fetch(&seqc, 1, __ATOMIC_SEQ_CST); o->res = gm_load(child[t], addr); o->r = __atomic_add_fetch(&seqc, 1, __ATOMIC_SEQ_CST); hstate[pg] = 1; }
+        else if (hstate[pg] == 1 || rnd() % 2) { hval[pg] = rnd() | 1u; o->op = 5; o->arg = hval[pg]; o->res = pg; o->c = __atomic_add_fetch(&seqc, 1, __ATOMIC_SEQ_CST); gm_store(child[t], addr, hval[pg]); o->r = __atomic_add_fetch(&seqc, 1, __ATOMIC_SEQ_CST); hstate[pg] = 2; }
+        else { o->op = 6; o->arg = hval[pg]; o->c = __atomic_add_fetch(&seqc, 1, __ATOMIC_SEQ_CST); o->res = gm_load(child[t], addr); o->r = __atomic_add_fetch(&seqc, 1, __ATOMIC_SEQ_CST); }
+        continue; } }
     if (k < 4) { unsigned d; unsigned ch = rnd() % 8; d = ch == 0 ? 0 : ch < 4 ? 1 : ch == 4 ? 2 : ch == 5 ? 3 : ch == 6 ? maxPages + 1 : 0x10000u + rnd() % 7;
-      o->op = 0; o->arg = d; o->c = __atomic_add_fetch(&seqc, 1, __ATOMIC_SEQ_CST); o->res = gm_grow(child[t], d); o->r = __atomic_add_fetch(&seqc, 1, __ATOMIC_SEQ_CST); }
-    else if (k < 7) { o->op = 1; o->arg = 0; o->c = __atomic_add_fetch(&seqc, 1, __ATOMIC_SEQ_CST); o->res = gm_size(child[t]); o->r = __atomic_add_fetch(&seqc, 1, __ATOMIC_SEQ_CST); }
+      o->op = 0; o->arg = d; o->c = __atomic_add_fetch(&seqc, 1, __ATOMIC_SEQ_CST); o->res = gm_grow(child[t], d); o->r = __atomic_add_fetch(&seqc, 1, __ATOMIC_SEQ_CST);
+      if (o->res != 0xffffffffu && o->res + d > observed) observed = o->res + d; }
+    else if (k < 7) { o->op = 1; o->arg = 0; o->c = __atomic_add_fetch(&seqc, 1, __ATOMIC_SEQ_CST); o->res = gm_size(child[t]); o->r = __atomic_add_fetch(&seqc, 1, __ATOMIC_SEQ_CST); if (o->res > observed) observed = o->res; }
     else if (k < 9) { last = rnd(); stored = 1; o->op = 2; o->arg = last; o->c = __atomic_add_fetch(&seqc, 1, __ATOMIC_SEQ_CST); gm_store(child[t], mine, last); o->res = 0; o->r = __atomic_add_fetch(&seqc, 1, __ATOMIC_SEQ_CST); }
     else { o->op = 3; o->arg = stored ? last : 0; o->c = __atomic_add_fetch(&seqc, 1, __ATOMIC_SEQ_CST); o->res = gm_load(child[t], mine); o->r = __atomic_add_fetch(&seqc, 1, __ATOMIC_SEQ_CST); }
   }
